@@ -150,6 +150,60 @@ def est_via_delegation(ctx, facts, fid):
     return False
 
 
+def est_via_fold(ctx, facts, fid):
+    """(0..len).fold(0, |acc, i| if a[i] == b[i] { acc + 1 } else { acc }) — the counting loop as a fold over the index range"""
+    fn = facts.fn(fid)
+    t = tree_of(fn)
+    where = hirq.loc(fn)
+    R = resolver_of(fn)
+    folds = [n for n in user_nodes(fn) if n["k"] == "MethodCall" and n["name"] == "fold" and len(n["args"]) == 2 and n["args"][1]["k"] == "Closure"]
+    if len(folds) != 1:
+        return False
+    c = folds[0]
+    cl = c["args"][1]
+    if nf.nf(c["args"][0], True) != "0" or len(cl["params"]) != 2 or any(p_.get("k") != "Bind" for p_ in cl["params"]):
+        return False
+    acc, var = cl["params"][0]["name"], cl["params"][1]["name"]
+    rng = nf.nf(c["recv"], True, res=R)
+    m = re.match(r"^std::ops::Range\{start:0, end:(.*)\}$", rng)
+    body = nf.strip(cl["body"])
+    if not m or body["k"] != "If" or "e" not in body:
+        return False
+    cond = nf.strip(body["c"])
+    if cond["k"] != "Binary" or cond["op"] != "==":
+        return False
+    m1 = re.match(r"^(.*)\[(\w+)\]$", nf.nf(cond["l"], True, res=R))
+    m2 = re.match(r"^(.*)\[(\w+)\]$", nf.nf(cond["r"], True, res=R))
+    then_, else_ = nf.nf(body["t"], True).strip("{}").strip(), nf.nf(body["e"], True).strip("{}").strip()
+    if not m1 or not m2 or m1.group(2) != var or m2.group(2) != var or m1.group(1) == m2.group(1) \
+            or then_ not in ("(%s + 1)" % acc, "(1 + %s)" % acc) or else_ != acc:
+        return False
+    a, b = m1.group(1), m2.group(1)
+    lens = {"%s.len()" % a, "%s.len()" % b}
+    if _resolve(fn, m.group(1)) not in lens and m.group(1) not in lens:
+        ctx.violation("EST", fid, "F2 range", hirq.loc(c), "the fold ranges over 0..%s; expected 0..len of one of the two sketches" % m.group(1))
+        return True
+    fs = nf.early_facts(t, c, res=R)
+    if not any(fc[0] == "cmp" and fc[2] == "==" and {_resolve(fn, fc[1]), _resolve(fn, fc[3])} == lens for fc in fs):
+        ctx.violation("EST", fid, "F1 length check", hirq.loc(c), "no length comparison of the two sketches that panics or returns Err precedes the fold (facts: %s)" % fs[:3])
+        return True
+    bodyb = fn["hir"]
+    rets = [n["e"] for n in user_nodes(fn) if n["k"] == "Ret" and "e" in n and _before(fn, c, n)] + ([bodyb["expr"]] if "expr" in bodyb else [])
+    if len(rets) != 1:
+        return False
+    r = nf.nf(rets[0], True, res=R)
+    r = re.sub(r"^std::prelude::v1::Ok\((.*)\)$", r"\1", r)
+    r = r.replace("num::NumCast::from(", "(").replace(").unwrap()", ")")
+    while r.startswith("(") and r.endswith(")") and _balanced(r[1:-1]):
+        r = r[1:-1]
+    cn = nf.nf(c, True, res=R)
+    if any(r in ("%s / %s" % (cn, l), "(%s) / %s" % (cn, l), "%s / (%s)" % (cn, l), "(%s) / (%s)" % (cn, l)) for l in lens):
+        ctx.ok("EST", fid, "length check; (0..len).fold(0, +1 iff %s[i] == %s[i]) / len" % (a, b), where)
+        return True
+    ctx.violation("EST", fid, "F4 result", hirq.loc(rets[0]), "the result is `%s`; expected <count> / <sketch length>" % r[:100])
+    return True
+
+
 def est_via_zip(ctx, facts, fid):
     """a.iter().zip(b.iter()).filter(|(x, y)| x == y).count() — the other accepted counting idiom"""
     fn = facts.fn(fid)
@@ -229,6 +283,8 @@ def est_template(ctx, facts, fid):
             return ("helper", hid)
         if est_via_zip(ctx, facts, fid):
             return ("zip", None)
+        if est_via_fold(ctx, facts, fid):
+            return ("fold", None)
     if len(fls) != 1 or [n for n in t.nodes if n["k"] == "Loop" and not hirq.in_log_macro(n)] != [fls[0]["loop"]]:
         ctx.violation("EST", fid, "F2 loop", where, "expected exactly one for loop, found %d loop(s)" % len([n for n in t.nodes if n["k"] == "Loop"]))
         return None
